@@ -61,6 +61,13 @@ class Mon:
         self.rec = rec
         self.eng = yq.engine()
         self.ctx = yaql.create_context()
+        # literals denote the same values whichever flavour of engine / context reads them
+        from yaql import legacy as ylegacy
+        self.worlds = [('default', self.eng, self.ctx), ('legacy', ylegacy.YaqlFactory().create(), ylegacy.create_context()),
+                       ('delegates', yq.engine(allow_delegates=True), yaql.create_context(delegates=True)),
+                       ('keyword-operator-colon', yq.engine(keyword_operator=':='), self.ctx),
+                       ('no-keyword-operator', yq.engine(keyword_operator=None), self.ctx), ('default', self.eng, self.ctx)]
+        self.turn = 0
         self.reach = hooks.Reach()
         for n in ('t_QUOTED_STRING', 't_DOUBLE_QUOTED_STRING', 't_QUOTED_VERBATIM_STRING', 't_NUMBER',
                   't_KEYWORD_STRING'):
@@ -75,16 +82,26 @@ class Mon:
     def read_batch(self, texts):
         """parse '[t1, t2, ...]' -> (list of constant nodes, list of evaluated values) or raises"""
         text = '[' + ', '.join(texts) + ']'
-        st = self.eng(text)
+        name, eng, ctx = self.pick(text)
+        st = eng(text)
         node = yq.unwrap(st.expression)
         args = [yq.unwrap(a) for a in node.args]
-        values = st.evaluate(context=self.ctx.create_child_context())
-        return args, values
+        values = st.evaluate(context=ctx.create_child_context())
+        return args, list(values)
+
+    def pick(self, text=''):
+        self.turn += 1
+        w = self.worlds[self.turn % len(self.worlds)]
+        if '=>' in text and 'keyword' in w[0]:
+            w = self.worlds[0]
+        self.rec.count('world.' + w[0])
+        return w
 
     def read_one(self, text):
-        st = self.eng(text)
+        name, eng, ctx = self.pick(text)
+        st = eng(text)
         node = yq.unwrap(st.expression)
-        return node, st.evaluate(context=self.ctx.create_child_context())
+        return node, st.evaluate(context=ctx.create_child_context())
 
     def strings(self, items, q, family):
         """items: list of python strings; checks the round trip in style q"""
